@@ -22,6 +22,31 @@ def _calls(n) -> List[ast.Call]:
     return [x for x in walk_shallow(e) if isinstance(x, ast.Call)] if e is not None else []
 
 
+def _reach_while_set(ff: FuncFacts, starts, v: str) -> Set[int]:
+    """The nodes reachable (without exception edges) from ``starts``, where the local ``v`` is known to hold an error: a later test of ``v`` is followed only on the
+    side that agrees, until ``v`` is bound again (``if err: pass  else: err = more()`` ; ``if err: return err``)."""
+    cfg = ff.cfg
+    seen: Set[Tuple[int, bool]] = set()
+    work = [(s, True) for s in starts]
+    out: Set[int] = set()
+    while work:
+        m, known = work.pop()
+        if (m.id, known) in seen:
+            continue
+        seen.add((m.id, known))
+        out.add(m.id)
+        rebinds = any(isinstance(x, ast.Name) and x.id == v and isinstance(x.ctx, (ast.Store, ast.Del)) for x in ast.walk(m.ast)) if m.kind in ('stmt', 'iter', 'with', 'except') and m.ast is not None else False
+        for t, label in m.succ:
+            if not no_exc(m, t, label):
+                continue
+            if known and m.kind == 'test' and label in ('true', 'false'):
+                atoms = ff.cond_atoms(m.ast.test, label == 'true')
+                if ('F', v) in atoms or ('none', v) in atoms:
+                    continue     # this side says "no error" while there is one
+            work.append((t, known and not rebinds))
+    return out
+
+
 def verdict_propagated(ff: FuncFacts, call: ast.Call) -> Tuple[bool, str]:
     """The value returned by ``call`` (None = fine, anything else = an error) cannot be dropped: it is returned directly,
     or assigned to a variable that every path to a normal exit tests, with the error branch returning / raising it."""
@@ -52,7 +77,7 @@ def verdict_propagated(ff: FuncFacts, call: ast.Call) -> Tuple[bool, str]:
             return False, f'a path from the call to a normal return never looks at {v}'
         for t, err_label in tests:
             starts = [s for s, l in t.succ if l == err_label]
-            reach = cfg.reachable(starts, include_src=True, edge_ok=no_exc)
+            reach = _reach_while_set(ff, starts, v)
             for r in [m for m in cfg.nodes if m.id in reach and m.kind == 'return']:
                 val = r.ast.value
                 names = {x.id for x in ast.walk(val) if isinstance(x, ast.Name)} if val is not None else set()
@@ -276,7 +301,10 @@ def callers_data(chk: Check) -> None:
         if g is None or isinstance(g.node, ast.Lambda):
             return False
         comp = [n_ for n_ in ast.walk(g.node) if isinstance(n_, ast.DictComp)]
-        rec = len(comp) == 1 and isinstance(comp[0].value, ast.Call) and isinstance(comp[0].value.func, ast.Name) and comp[0].value.func.id == g.name
+        fn_ = comp[0].value.func if len(comp) == 1 and isinstance(comp[0].value, ast.Call) else None
+        # (calls itself: by name, or -- a method -- through ``self`` / ``cls`` / its class)
+        rec = (isinstance(fn_, ast.Name) and fn_.id == g.name) or (isinstance(fn_, ast.Attribute) and fn_.attr == g.name and g.cls is not None and isinstance(fn_.value, ast.Name)
+                                                                   and fn_.value.id in ('self', 'cls', g.cls.name))
         guard = any(isinstance(n_, ast.If) and norm(n_.test).startswith('isinstance(') and 'dict' in norm(n_.test) for n_ in ast.walk(g.node))
         return rec and guard
 
